@@ -123,7 +123,7 @@ func callKeyOf(call *ssa.CallCommon) string {
 }
 
 func ifaceMethodKey(call *ssa.CallCommon) string {
-	recv := call.Value.Type()
+	recv := types.Unalias(call.Value.Type())
 	if n, ok := recv.(*types.Named); ok {
 		if n.Obj().Pkg() != nil {
 			return n.Obj().Pkg().Path() + "." + n.Obj().Name() + "." + call.Method.Name()
